@@ -1345,7 +1345,41 @@ def texttable_roles(prog: Program, run: Run, R: str) -> None:
             order.append("lower")
         elif "upper_limit" in t:
             order.append("upper")
-    if order == ["inverse", "lower", "upper"]:
+    # the PRIORITY, not the position in the text: the lower limit is returned only where the
+    # inverse value is absent, the upper limit only where inverse value and lower limit are
+    inv_names = {"compu_inverse_value"} | {
+        x.targets[0].id for x in walk_no_nested(f.node) if isinstance(x, ast.Assign) and
+        isinstance(x.targets[0], ast.Name) and "compu_inverse_value" in ast.unparse(x.value)} | {
+        x.target.id for x in walk_no_nested(f.node) if isinstance(x, ast.NamedExpr) and
+        "compu_inverse_value" in ast.unparse(x.value)}
+    ocfg = CFG(f.node)
+
+    def absent(conds, keys) -> bool:
+        for t, pol in conds:
+            for c_ in ast.walk(t) if not isinstance(t, ast.BoolOp) else t.values:
+                txt = ast.unparse(c_)
+                if not any(k in txt for k in keys):
+                    continue
+                if isinstance(c_, ast.Compare) and len(c_.ops) == 1 and isinstance(
+                        c_.comparators[0], ast.Constant) and c_.comparators[0].value is None:
+                    if isinstance(c_.ops[0], ast.Is) and pol and not isinstance(t, ast.BoolOp):
+                        return True
+                    if isinstance(c_.ops[0], ast.IsNot) and not pol:
+                        return True
+                    if isinstance(c_.ops[0], ast.Is) and pol and isinstance(
+                            t, ast.BoolOp) and isinstance(t.op, ast.Or):
+                        continue
+        return False
+    prio_ok = len(set(order)) == 3
+    for r in rets:
+        t = ast.unparse(r.value)
+        conds = ocfg.branch_conditions(ocfg.node_of(r))
+        if "lower_limit" in t and not absent(conds, inv_names):
+            prio_ok = False
+        if "upper_limit" in t and not (absent(conds, inv_names) and absent(conds,
+                                                                           {"lower_limit"})):
+            prio_ok = False
+    if order == ["inverse", "lower", "upper"] or prio_ok:
         run.ok(R, C, "returns COMPU-INVERSE-VALUE, else the lower, else the upper limit", f.loc)
     else:
         run.violation(R, C, "inverse-order", f"returns {order} instead of inverse value, lower "
